@@ -31,6 +31,15 @@ impl WriteHalf for NoWrite {
 }
 
 fn stub_command_from_str(_s: &str) -> Result<Command> { Err(Error::InvalidField) }
+// `trace!("Reading {line}")` makes <str as Display>::fmt reachable, on which the Kani 0.68 compiler panics
+// (intrinsics.rs:243); log text is not part of any contract
+// tracing: any event (`trace!`) makes the dispatcher machinery reachable, on which the Kani 0.68 compiler panics
+// (intrinsics.rs:243).  Logging is not part of any contract: the three entry points the macro calls are no-ops here.
+fn stub_tracing_interest(_cs: &tracing::callsite::DefaultCallsite) -> tracing::subscriber::Interest { tracing::subscriber::Interest::never() }
+fn stub_tracing_is_enabled(_m: &tracing::Metadata<'static>, _i: tracing::subscriber::Interest) -> bool { false }
+fn stub_tracing_dispatch<'a: 'a>(_m: &'static tracing::Metadata<'static>, _f: &'a tracing::field::ValueSet<'_>) {}
+fn stub_tracing_span_new(_m: &'static tracing::Metadata<'static>, _v: &tracing::field::ValueSet<'_>) -> tracing::Span { tracing::Span::none() }
+fn stub_str_display(_s: &str, _f: &mut core::fmt::Formatter<'_>) -> core::fmt::Result { Ok(()) }
 
 const N: usize = 3;
 
@@ -44,6 +53,10 @@ const N: usize = 3;
 #[kani::proof]
 #[kani::stub(alloc::fmt::format, stub_format)]
 #[kani::stub(<Command as core::str::FromStr>::from_str, stub_command_from_str)]
+#[kani::stub(tracing::callsite::DefaultCallsite::interest, stub_tracing_interest)]
+#[kani::stub(tracing::__macro_support::__is_enabled, stub_tracing_is_enabled)]
+#[kani::stub(tracing::Event::dispatch, stub_tracing_dispatch)]
+#[kani::stub(tracing::Span::new, stub_tracing_span_new)]
 #[kani::unwind(5)]
 fn c16_read_commands_stray_line_endings__bounded() {
     let data: [u8; N] = kani::any();
@@ -83,6 +96,7 @@ fn c16_read_commands_stray_line_endings__bounded() {
     kani::cover!(lf < N && !stray, "cover.crlf_line");
     core::mem::forget(r);
 }
+
 
 #[cfg(all(kani, test))]
 mod playback {
